@@ -107,7 +107,12 @@ fn render(k: usize, case: &Value, pts: &[Option<i128>]) -> Rendered {
     let op = case["op"].as_str().unwrap_or("none");
     let (lo2, hi2) = (case["lo2"].as_u64().unwrap_or(0) as usize, case["hi2"].as_u64().unwrap_or(0) as usize);
     let second = |pts: &[Option<i128>]| if lo2 == hi2 { bound(pts, lo2) } else { format!("{}..{}", bound(pts, lo2), bound(pts, hi2)) };
-    let c = if case["form"] == "single" {
+    // ... and every fifth extensible range / single value is written with the elements in parentheses of their own and the
+    // marker behind them, ((lo..hi), ...): the marker then stands on the level of the element set (X.680 50.1), same meaning
+    let outer = ext && k % 5 == 4 && op == "none" && matches!(case["form"].as_str().unwrap_or("range"), "range" | "single");
+    let c = if outer {
+        if case["form"] == "single" { format!("(({}), ...)", bound(pts, lo)) } else { format!("(({}..{}), ...)", bound(pts, lo), bound(pts, hi)) }
+    } else if case["form"] == "single" {
         format!("({}{e})", bound(pts, lo))
     } else {
         match op {
